@@ -485,6 +485,13 @@ pub fn c05(ctx: &Ctx, rep: &mut Report) {
         o.nontrivial = true;
         o
     });
+    // one end driven by the CopyBidirectional bridge (what every TCP entry point does): its local end-of-stream is the shutdown,
+    // the bytes it took from the local side are the writes
+    ctx.prop(rep, "eos-bridged", ctx.tier.pick(30_000, 1_000_000), 300, || with_keepalive(super::bridge::c13_case()), |case| {
+        let mut o = run_c05(case);
+        o.classes.push("bridged-end");
+        o
+    });
     // the same histories with the connection ending at a generated step (handle dropped on either side, or Close from the peer):
     // data that reached the endpoint must still be readable before end-of-stream
     ctx.prop(
